@@ -3,8 +3,25 @@
 package math
 
 import (
+	"github.com/cockroachdb/apd/v2"
+
 	zz "github.com/regen-network/regen-ledger/types/v2/zzverif"
 )
+
+// native replay: decimals come from the counterexample as (negative, coefficient, exponent)
+func init() {
+	zz.Filler = func(label string, ptr interface{}) bool {
+		d, ok := ptr.(*apd.Decimal)
+		if !ok {
+			return false
+		}
+		d.Form = apd.Finite
+		d.Negative = zz.CexBool(label + "[0]")
+		d.Coeff.Set(zz.CexBig(label + "[1]"))
+		d.Exponent = int32(zz.CexInt(label + "[2]"))
+		return true
+	}
+}
 
 func nondetDec(label string) Dec {
 	zz.NoMerge()
